@@ -73,15 +73,16 @@ theorem measurement_offsets_are_source (β : Type) (cast32 : β → β) (vals : 
 
 /-! ### group numbering in the SOP class constructor -/
 
-theorem sopGroupCheck_spec (i number : Int) :
-    sopGroupCheck i true number = if number = i + 1 then .ok 0 else .error .value := by
+theorem sopGroupCheck_spec (i number nCached : Int) (typeNotCached : Bool) :
+    sopGroupCheck i true number nCached typeNotCached =
+      if number = i + 1 then (if nCached > 0 ∧ typeNotCached = true then .error .value else .ok 0) else .error .value := by
   unfold sopGroupCheck
-  by_cases h : number = i + 1 <;> simp [h]
+  by_cases h : number = i + 1 <;> by_cases h2 : nCached > 0 <;> cases typeNotCached <;> simp [h, h2]
 
 /-- the loop of the constructor over groups at positions `off, off+1, …` -/
 def sopLoop : Int → List Int → Bool
   | _, [] => true
-  | i, n :: rest => (match sopGroupCheck i true n with | .ok _ => true | .error _ => false) && sopLoop (i + 1) rest
+  | i, n :: rest => (match sopGroupCheck i true n 0 false with | .ok _ => true | .error _ => false) && sopLoop (i + 1) rest
 
 theorem sopLoop_range (numbers : List Int) : ∀ off : Nat,
     sopLoop (off : Int) numbers = decide (numbers = (List.range' off numbers.length).map (fun (i : Nat) => (i : Int) + 1)) := by
@@ -174,5 +175,35 @@ theorem checkMeas_follows_plan {β : Type} (m : MeasEnc β) (n : Nat) :
           simp [hl, this, Except.map]
     · have : ¬ ((k : Int) = (n : Int)) := by omega
       cases hg : getValues m n <;> simp [hk, this, Except.map]
+
+end HdVerif.Ann
+
+namespace HdVerif.Ann
+open HdVerif HdVerif.Gen
+
+/-! ### coordinate type of the groups handed to the SOP class constructor -/
+
+/-- the constructor's loop over correctly numbered groups, looking at what each group was built with: `_graphic_data` holds
+one entry (the group constructor's) or none (parsed group), and the instance's type is or is not its key -/
+def sopTypeLoop (ct : Int) : Int → List (Option Int) → Bool
+  | _, [] => true
+  | i, b :: rest =>
+    (match sopGroupCheck i true (i + 1) (if b.isSome then 1 else 0) (decide (b ≠ some ct)) with
+     | .ok _ => true
+     | .error _ => false) && sopTypeLoop ct (i + 1) rest
+
+/-- **bridge**: the model accepts the coordinate types of the groups iff the regenerated loop body succeeds for every group -/
+theorem sopAcceptsTypes_is_source_loop (ct : Int) (built : List (Option Int)) : ∀ i : Int,
+    sopAcceptsTypes ct built = sopTypeLoop ct i built := by
+  induction built with
+  | nil => intro i; rfl
+  | cons b rest ih =>
+    intro i
+    have := ih (i + 1)
+    simp only [sopAcceptsTypes, List.all_cons] at this ⊢
+    simp only [sopTypeLoop, sopGroupCheck_spec, if_true, ← this]
+    cases b with
+    | none => simp
+    | some t => by_cases h : t = ct <;> simp [h]
 
 end HdVerif.Ann
